@@ -97,6 +97,11 @@ CHECKS = {
             "(content, signature length, SelfSigned), which the parser fixes to false for non-self-issued certificates (c09_meta, c09_parser_side). The facts 'which lint reads Signature/Raw/fingerprints/ValidationLevel/SelfSigned and where' are "
             "regenerated from go/ssa each run and must stay inside the allow-list. Explored: signature payload replaced by zeros/random/... in all 848 non-self-issued corpus certificates, status and details of all certificate lints compared.",
             "DESIGN.md 5/C09", "That the allow-listed reads are length-only / structure-only is confirmed dynamically, not proved."),
+    "C10": (True, "Coq theorems (schedule independence of shared-read-only threads; read-mode lock never blocks) + kernel-checked obligations over regenerated call-graph facts + concurrent stress vs sequential results (race detector in thorough)",
+            "Proof (partial): for every interleaving of threads none of whose steps writes the shared store, the shared store is unchanged and each thread ends with exactly what it computes alone; a readers-writer lock acquired only in read mode never blocks. "
+            "Each run regenerates, from go/ssa, the stores to package-level state and the lock operations reachable from Lint*Ex and the registry read API and the kernel checks there are none / only read-mode ones. "
+            "Explored: goroutines linting their own objects against shared registries while readers call the registry API, compared with sequential results; thorough builds the harness with -race and varies G and GOMAXPROCS.",
+            "DESIGN.md 5/C10", "The Go memory model, scheduler and runtime locks are outside the model; only the schedules actually run are covered for them."),
 }
 
 REASON_PENDING = "check not built yet in this session; planned (see DESIGN.md section 5)"
